@@ -186,7 +186,7 @@ def check(tier, seed, replay=None):
         else:
             pairs = [{"id": c["id"].split("/")[0], "a": c["texta"], "b": c["textb"]}]
     else:
-        for fam, nquick in (("d1", 1200), ("d2num", 1800), ("d2log", 2400), ("zero", 2500), ("negsum", 700)):
+        for fam, nquick in (("d1", 1200), ("d2num", 1800), ("d2log", 2400), ("zero", 2500), ("negsum", 700), ("assoc", 800)):
             cs, g, d = core.gen_cases(SPEC_DIR, "ExprGen.tla", f"Gen_{fam}.cfg", "ex" + fam, workers=8)
             for i, c in enumerate(cs):
                 c["id"] = f"{fam}_{i}"
